@@ -295,9 +295,9 @@ pub fn property() -> Property {
     for dname in DRIVERS {
         let dname: &'static str = dname;
         let (q, t) = match dname {
-            "cram" => (64, 1500),
-            "bgzf" => (96, 2500),
-            _ => (160, 4000),
+            "cram" => (160, 2500),
+            "bgzf" => (240, 4000),
+            _ => (480, 8000),
         };
         subs.push(
             ClosureSub::<Case> {
